@@ -644,10 +644,13 @@ static void op_release(struct ctx *c)
     R("  %s\n", what);
     c->hash = vp_hash_mix(c->hash, 0x500 + j);
     if (c->any_data) c->classes |= 1u << CL_RELEASE_MID;
-    /* sub-pipes first (they hold their super-pipe) */
-    for (int k = 0; k < MAXSUB; k++) if (z->sub[k].alive) { upipe_release(z->sub[k].upipe); z->sub[k].alive = false; }
+    /* sub-pipes first (they hold their super-pipe) -- unless the application is one that drops its handles on the outputs inside
+     * their source_end event, which the duplicating pipe throws when its own last handle goes */
+    if (c->pfx.event_hook == NULL)
+        for (int k = 0; k < MAXSUB; k++) if (z->sub[k].alive) { upipe_release(z->sub[k].upipe); z->sub[k].alive = false; }
     z->held = false;
     upipe_release(z->upipe);
+    for (int k = 0; k < MAXSUB; k++) if (z->sub[k].alive) { upipe_release(z->sub[k].upipe); z->sub[k].alive = false; }
     process_new_records(c, what, j, NULL, false, -1, false);
     end_op(c, what);
 }
@@ -862,6 +865,26 @@ static int replug_on_need_output(struct pfx *pfx, int probe_id, struct upipe *up
 }
 #endif
 
+#if PIPES_PROP == 1
+/* applications commonly drop their handle on a pipe inside its source_end event: here on the outputs of a duplicating pipe, which
+ * throws source_end on each of them while it is being destroyed (the walk over the outputs must survive an output that disappears) */
+static void release_on_source_end(struct pfx *pfx, int probe_id, struct upipe *upipe, int event, void *opaque)
+{
+    struct ctx *c = opaque;
+    if (event != UPROBE_SOURCE_END) return;
+    for (int j = 0; j < c->np; j++)
+        for (int k = 0; k < MAXSUB; k++) {
+            struct zsub *sb = &c->p[j].sub[k];
+            if (!sb->alive || sb->probe != probe_id || sb->upipe != upipe) continue;
+            R("      (source_end on p%d.sub%d: the application releases its handle inside the event)\n", j, k);
+            sb->alive = false;
+            c->classes |= 1u << CL_SUBCHURN;
+            upipe_release(upipe);
+            return;
+        }
+}
+#endif
+
 static int run_once(const uint8_t *tp_, size_t len, struct vp_report *rep, unsigned flags, bool skip_getters, int force_pool)
 {
     struct ctx *c = &ctx;
@@ -887,6 +910,7 @@ static int run_once(const uint8_t *tp_, size_t len, struct vp_report *rep, unsig
      * need_output -- thrown when a pipe has no output, or when its output refused the flow definition -- by plugging the OTHER
      * sink, as applications that build their pipelines lazily do */
     if ((cfgb / 12) % 3 == 2) { c->pfx.need_output_hook = replug_on_need_output; c->pfx.need_output_opaque = c; }
+    if ((cfgb / 36) % 2 == 1) { c->pfx.event_hook = release_on_source_end; c->pfx.event_opaque = c; }
 #endif
     c->np = 1 + tp_u8(&c->t) % MAXP;
     if (c->np >= 2) c->classes |= 1u << CL_CHAIN2;
